@@ -488,12 +488,20 @@ func freshNet() {
 }
 
 func setupNet() {
-	l, err := net.Listen("tcp", "127.0.0.1:0")
-	if err != nil {
-		panic(err)
+	// a real address nobody listens on: a low port outside the ephemeral range (a port obtained from a listener that
+	// is closed again can be handed to one of the mock brokers, or be self-connected to by the kernel)
+	for port := 1; port < 64; port++ {
+		a := fmt.Sprintf("127.0.0.1:%d", port)
+		c, err := net.DialTimeout("tcp", a, 300*time.Millisecond)
+		if err != nil {
+			closedAddr = a
+			break
+		}
+		c.Close()
 	}
-	closedAddr = l.Addr().String()
-	l.Close()
+	if closedAddr == "" {
+		panic("no closed port found")
+	}
 	freshNet()
 	rep := &reporter{}
 	for i := 0; i < 16; i++ {
